@@ -51,7 +51,7 @@ def program():
     return _PROGRAM
 
 
-def run_vu(vu, prop, seed=0, open_findings=()):
+def run_vu(vu, prop, seed=0, open_findings=(), start=None, split_at=None):
     """Explore all paths of one unit and discharge its obligations for property ``prop``."""
     t0 = time.time()
     res = {"unit": vu.name, "label": vu.label, "functions": list(vu.functions), "obligations": [],
@@ -87,8 +87,10 @@ def run_vu(vu, prop, seed=0, open_findings=()):
             except LoopCut:
                 return "loop-cut"
 
-        paths, obs = core.explore(theory, run, stats, timeout_ms=vu.timeout_ms, seed=seed,
-                                  open_findings=open_findings, max_paths=vu.max_paths)
+        paths, obs, leftover = core.explore(theory, run, stats, timeout_ms=vu.timeout_ms, seed=seed,
+                                            open_findings=open_findings, max_paths=vu.max_paths,
+                                            start=start, split_at=split_at)
+        res["leftover"] = leftover
         res["paths"] = len(paths)
         res["outcomes"] = {}
         for _, outcome, _ctx in paths:
@@ -117,7 +119,7 @@ def run_vu(vu, prop, seed=0, open_findings=()):
         res["assumptions"] = list(theory.assumptions)
         if "rt" in rt_box:
             res["models_used"] = sorted(rt_box["rt"].used_models)
-        if not mine:
+        if not mine and start is None and not leftover:
             res["error"] = "unit produced zero obligations for %s (engine fault)" % prop
     except Undecided as exc:
         res["undecided"] = str(exc)
@@ -164,8 +166,27 @@ def _try_cvc5(theory, ob, timeout_ms):
 
 
 def _worker(args):
-    vu, prop, seed, open_findings = args
-    return run_vu(vu, prop, seed, open_findings)
+    vu, prop, seed, open_findings, start, split_at = args
+    return run_vu(vu, prop, seed, open_findings, start, split_at)
+
+
+def _merge(a, b):
+    """Merge the result of a sub-tree exploration into the unit's result."""
+    a["obligations"].extend(b["obligations"])
+    a["paths"] += b["paths"]
+    for k, v in (b.get("outcomes") or {}).items():
+        a.setdefault("outcomes", {})
+        a["outcomes"][k] = a["outcomes"].get(k, 0) + v
+    a["seconds"] = round(a["seconds"] + b["seconds"], 3)
+    a["feas_queries"] = (a.get("feas_queries") or 0) + (b.get("feas_queries") or 0)
+    a["feas_seconds"] = round((a.get("feas_seconds") or 0) + (b.get("feas_seconds") or 0), 3)
+    a["assumptions"] = sorted(set(a.get("assumptions", [])) | set(b.get("assumptions", [])))
+    if b.get("undecided") and not a.get("undecided"):
+        a["undecided"] = b["undecided"]
+    if b.get("error") and not a.get("error"):
+        a["error"] = b["error"]
+    if not a.get("sample_smt2") and b.get("sample_smt2"):
+        a["sample_smt2"] = b["sample_smt2"]
 
 
 def load_known_findings():
@@ -181,13 +202,35 @@ def run_check(prop, units, tier, seed, level, technique_text, trusted_base, repl
     kf = load_known_findings()
     open_f = [f for f in kf["findings"] if f["property"] == prop and f["status"] == "open"]
     open_ids = tuple(f["id"] for f in open_f)
-    jobs = [(u, prop, seed, open_ids) for u in units]
-    nproc = min(14, max(1, len(jobs)))
-    if len(jobs) > 1:
-        with mp.get_context("fork").Pool(nproc) as pool:
-            results = pool.map(_worker, jobs, chunksize=1)
-    else:
-        results = [_worker(j) for j in jobs]
+    nproc = int(os.environ.get("PYVC_WORKERS", "16"))
+    budget = int(os.environ.get("PYVC_PATH_BUDGET", "2"))
+    results = [None] * len(units)
+    program()      # parse the sources once, before forking
+    with mp.get_context("fork").Pool(min(nproc, max(1, len(units) * 4))) as pool:
+        # dynamic scheduling: every job explores at most `budget` paths below its prefix and hands the
+        # unexplored prefixes back; they are queued as new jobs (balances the big units over the cores)
+        pending = []
+        for idx, u in enumerate(units):
+            pending.append((idx, pool.apply_async(_worker, ((u, prop, seed, open_ids, None, budget),))))
+        while pending:
+            nxt = []
+            for idx, ar in pending:
+                if not ar.ready():
+                    nxt.append((idx, ar))
+                    continue
+                r = ar.get()
+                for pref in r.pop("leftover", None) or []:
+                    nxt.append((idx, pool.apply_async(_worker, ((units[idx], prop, seed, open_ids, pref, budget),))))
+                if results[idx] is None:
+                    results[idx] = r
+                else:
+                    _merge(results[idx], r)
+            pending = nxt
+            if pending:
+                time.sleep(0.01)
+    for r in results:
+        if not r["obligations"] and not r["error"] and not r["undecided"]:
+            r["error"] = "unit produced zero obligations for %s (engine fault)" % prop
 
     extra = []
     if extra_checks:
